@@ -1365,6 +1365,17 @@ type fxScale struct {
 func (s fxScale) Mul(s1 fxScale) fxScale { return fxScale{Value: s.Value * s1.Value, Mod: s1.Mod} }
 func (s fxScale) Div(s1 fxScale) fxScale { return fxScale{Value: s.Value / s1.Value, Mod: s.Mod} }
 
+// PRNGSHARE control: the copy's sampler draws from the receiver's generator
+type fxDrawer struct {
+	prng sampling.PRNG
+	r    *ring.Ring
+	u    ring.Sampler
+}
+
+func (d fxDrawer) ShallowCopy() *fxDrawer {
+	return &fxDrawer{prng: d.prng, r: d.r, u: ring.NewUniformSampler(d.prng, d.r)}
+}
+
 `
 
 // control runs scan over the fixture and demands a violation whose key contains each of the wanted substrings.
